@@ -161,5 +161,6 @@ func init() {
 			econst.CheckNamed(run, p, "CONST", "curve.constEDWARDS_D", "curve.constONE_MINUS_EDWARDS_D_SQUARED", "curve.constEDWARDS_D_MINUS_ONE_SQUARED",
 				"curve.constSQRT_AD_MINUS_ONE", "curve.constINVSQRT_A_MINUS_D", "internal/field.SQRT_M1", "curve.RISTRETTO_BASEPOINT_COMPRESSED", "curve.RISTRETTO_BASEPOINT_POINT")
 		}
+		arithmeticFoundations(c)
 	}
 }
